@@ -5,10 +5,63 @@ import contextlib
 import importlib
 import io
 import logging
+import os
+import re
+import subprocess
 import sys
+
+# How run_main runs a front end: "inproc" (main() in this process), "script" (a child process running the console-script
+# wrapper pip generates from [project.scripts] of the current pyproject.toml: `sys.exit(main())`), or "module" (a child
+# process running `python -m in_toto.<tool>`, i.e. the `if __name__ == "__main__": main()` at the end of each front end).
+MODE = "inproc"
+
+
+@contextlib.contextmanager
+def mode(m):
+    global MODE  # pylint: disable=global-statement
+    old, MODE = MODE, m
+    try:
+        yield
+    finally:
+        MODE = old
+
+
+_SCRIPTS = None
+
+
+def console_scripts():
+    """{module name: (script name, 'pkg.mod', 'func')} from [project.scripts] of the tree under test."""
+    global _SCRIPTS  # pylint: disable=global-statement
+    if _SCRIPTS is None:
+        from harness import core
+        _SCRIPTS = {}
+        try:
+            text = open(os.path.join(core.REPO, "pyproject.toml"), encoding="utf8").read()
+            m = re.search(r"^\[project\.scripts\]\s*$(.*?)(?=^\[|\Z)", text, re.S | re.M)
+            for name, target in re.findall(r'^\s*([\w-]+)\s*=\s*"([\w.]+:[\w.]+)"', m.group(1) if m else "", re.M):
+                mod, func = target.split(":")
+                _SCRIPTS[mod.rsplit(".", 1)[-1]] = (name, mod, func)
+        except OSError:
+            pass
+    return _SCRIPTS
+
+
+def run_process(tool, argv, spelling, timeout=120):
+    """The front end as a child process; returns (exit status, stdout, stderr). Negative status = killed by a signal."""
+    if spelling == "script":
+        name, mod, func = console_scripts().get(tool, (tool.replace("_", "-"), "in_toto." + tool, "main"))
+        code = "import sys\nfrom %s import %s\nsys.argv[0] = %r\nsys.exit(%s())\n" % (mod, func, name, func)
+        cmd = [sys.executable, "-c", code] + [str(a) for a in argv]
+    else:
+        cmd = [sys.executable, "-m", "in_toto." + tool] + [str(a) for a in argv]
+    p = subprocess.run(cmd, stdin=subprocess.DEVNULL, stdout=subprocess.PIPE, stderr=subprocess.PIPE, text=True,
+                       errors="replace", timeout=timeout, check=False)
+    return p.returncode, p.stdout, p.stderr
 
 
 def run_main(tool, argv):
+    if MODE != "inproc":
+        return run_process(tool, argv, MODE)
     mod = importlib.import_module("in_toto." + tool)
     old = sys.argv
     sys.argv = [tool.replace("_", "-")] + list(argv)
@@ -18,6 +71,8 @@ def run_main(tool, argv):
     try:
         with contextlib.redirect_stdout(out), contextlib.redirect_stderr(err):
             try:
+                # a value main() returns is ignored by `python -m in_toto.<tool>` (status 0) and handed to sys.exit by the
+                # console script; the two spellings are compared in child processes (MODE), here the first one is taken
                 mod.main()
                 status = None
             except SystemExit as e:
